@@ -13,7 +13,7 @@ EXTENDS IPFSConn, Json, IOUtils
 
 Recs == ndJsonDeserialize(IOEnv.TRACE_FILE)
 
-InOf(r) == [op |-> r.in.op, mode |-> r.in.mode, upd |-> r.in.upd, norig |-> r.in.norig,
+InOf(r) == [op |-> r.in.op, mode |-> r.in.mode, upd |-> r.in.upd, norig |-> r.in.norig, ohang |-> r.in.ohang,
             prior |-> [c1 |-> r.in.prior.c1, c2 |-> r.in.prior.c2], intf |-> r.in.intf]
 ReqOf(q) == [ep |-> q.ep, cid |-> q.cid, typ |-> q.typ, rec |-> q.rec, from |-> q.from, unpin |-> q.unpin,
              beh |-> q.beh, eff |-> q.eff, ans |-> q.ans]
